@@ -57,7 +57,8 @@ SHAPES = {'quick': [(1, 1), (1, 2), (2, 1), (2, 2), (2, 3), (3, 2)],
 TABLE_LABELS = ['X', '.', '0', '1', '42', 'a b', 'ä', '€', ',', ';', '!', '"', "'",
                 'x\ty', '-', '!!', '=', '*', '<>', 'B', '\\', 'x\\n', '{}', 'None', 'True',
                 'lorem ipsum dolor sit amet ' * 4 + 'end',      # > 100 characters with blanks
-                'e\u0301', '\u00e9']      # canonically equivalent, different strings
+                'e\u0301', '\u00e9',      # canonically equivalent, different strings
+                '+', ':', '-=-', '--+--', ';;', 'a;b;c', '\t\t'.strip() or '::']
 CXT_LABELS = TABLE_LABELS + ['|', '#', 'a|b', '#x', 'a#b', '||',
                              # separators that are not line breaks of a text file (only \n / \r are)
                              'a\x0cb', 'a\u2028b', 'a\x85b', 'a\x1eb']
@@ -349,8 +350,12 @@ def run_suffix(tier):
             ctx.tofile(path, frmat=fmt)
             ctr['calls'] += 2
             ctr['evaluations'] += 1
+            import pathlib
             for name, fn in (('load', lambda: concepts.load(path)),
-                             ('fromfile-None', lambda: concepts.Context.fromfile(path, frmat=None))):
+                             ('fromfile-None', lambda: concepts.Context.fromfile(path, frmat=None)),
+                             ('load-pathlib', lambda: concepts.load(pathlib.Path(path))),
+                             ('fromfile-None-pathlib',
+                              lambda: concepts.Context.fromfile(pathlib.Path(path), frmat=None))):
                 try:
                     back = fn()
                     ok = back == ctx
